@@ -23,7 +23,8 @@ pub fn cfg_list(n: u32) -> Vec<Cfg> {
         (0..16).map(Cfg::from_bits).collect()
     } else {
         // all-off, all-on, and the two single-flag settings that change candidate selection most
-        vec![Cfg::from_bits(0), Cfg::from_bits(15), Cfg::from_bits(8), Cfg::from_bits(7)]
+        let all = vec![Cfg::from_bits(0), Cfg::from_bits(15), Cfg::from_bits(8), Cfg::from_bits(7)];
+        all.into_iter().take(n.max(1) as usize).collect()
     }
 }
 
@@ -60,7 +61,7 @@ pub fn run_insert_only(prop: &'static str, checks: Checks, tier: Tier) -> i32 {
         (Tier::Quick, false) => vec![(2, 4, 1, 2), (1, 4, 2, 1)],
         (Tier::Thorough, false) => vec![(2, 16, 1, 3), (1, 16, 2, 2), (2, 16, 2, 1), (1, 4, 3, 1)],
         // tracing and serialising a trace is ~30x the cost of a match: smaller plans
-        (Tier::Quick, true) => vec![(1, 4, 1, 2), (1, 4, 2, 1)],
+        (Tier::Quick, true) => vec![(1, 2, 1, 2), (1, 2, 2, 1)],
         (Tier::Thorough, true) => vec![(2, 16, 1, 2), (1, 16, 2, 1), (1, 4, 2, 2)],
     };
     for (pairs, ncfg, depth, max_dev) in plans {
